@@ -15,7 +15,6 @@ package consensus
 //@ smt all (declare-fun sb_haskey (Int) Bool)
 
 //@ spec nidMatch(a, b) = a == 0 || b == 0 || a == b
-//@ spec addrID(a) = bseq(arr(a), 1, 20)
 
 //@ func matchNID(nid1, nid2) (r)
 //@   pure
@@ -221,3 +220,46 @@ package consensus
 //@   modifies *
 //@   ensures [pair] len(r) != 0 ==> len(r) == 2 && typeof(r[0]) == typeid(ptr_dsProposal) && typeof(r[1]) == typeid(ptr_dsProposal)
 //@   ensures [genuine] len(r) != 0 ==> as(ptr_dsProposal, r[1]).msg == msg && as(ptr_dsProposal, r[0]).msg != nil && propConflict(as(ptr_dsProposal, r[0]).msg, msg)
+
+// ---------------------------------------------------------------------------
+// C05: commit certificates are accepted only with > 2/3 distinct valid signatures
+// ---------------------------------------------------------------------------
+
+//@ property C05
+// the bytes a vote is signed over: a function of exactly height, round, type, block id, part-set
+// id (+ app data) object and timestamp
+//@ smt all (declare-fun vote_enc (Int Int Int BSeq Int Int) BSeq)
+//@ spec voteBytes(m) = vote_enc(m.Height, m.Round, m.Type, seq(m.BlockID), ref(m.BlockPartSetIDAndNTSVoteCount), m.Timestamp)
+//@ func (b byteser) bytes() (bs)
+//@   iface
+//@   trusted
+//@   pure
+//@   ensures typeof(b) == typeid(ptr_blockVoteByteser) ==> seq(bs) == voteBytes(as(ptr_blockVoteByteser, b).msg)
+
+//@ func enoughVote(voted, voters) (r)
+//@   pure
+//@   requires voted >= 0 && voters >= 0 && voters < 0x10000000
+//@   ensures [threshold] r == (voters == 0 || 3 * voted > 2 * voters)
+
+// The signer index of commit-vote item k: the position in the validator list of the address
+// recovered from the item's signature over the precommit for exactly this block/round/part-set.
+//@ spec itemHash(bvl, block, k) = sha3(vote_enc(blk_height(block), bvl.Round, 1, blk_id(block), ref(bvl.BlockPartSetIDAndAppData), bvl.Items[k].Timestamp))
+//@ spec itemSigner(bvl, block, k) = acc_addr(sig_pk(ref(bvl.Items[k].Signature.Signature), itemHash(bvl, block, k)))
+//@ spec itemIdx(bvl, block, vl, k) = vl_idx(vl, itemSigner(bvl, block, k))
+//@ spec itemOK(bvl, block, vl, k) = bvl.Items[k].Signature.Signature != nil && sig_ok(ref(bvl.Items[k].Signature.Signature), itemHash(bvl, block, k)) && 0 <= itemIdx(bvl, block, vl, k) && itemIdx(bvl, block, vl, k) < vl_len(vl)
+
+//@ func (bvl *blockCommitVoteList) VerifyBlock(block, validators) (vset, err)
+//@   inline address, publicKey, hash
+//@   requires bvl != nil && block != nil
+//@   modifies *
+//@   opt protect bvl.Items[*], bvl.Round, bvl.BlockPartSetIDAndAppData, bvl.Items
+//@   ensures [quorum] err == nil && blk_height(block) != 0 && validators != nil ==> vl_len(validators) == 0 || 3 * len(bvl.Items) > 2 * vl_len(validators)
+//@   ensures [members] err == nil && blk_height(block) != 0 && validators != nil ==> (forall k int :: {bvl.Items[k]} 0 <= k && k < len(bvl.Items) ==> itemOK(bvl, block, validators, k))
+//@   ensures [distinct] err == nil && blk_height(block) != 0 && validators != nil ==> (forall k1 int, k2 int :: {bvl.Items[k1], bvl.Items[k2]} 0 <= k1 && k1 < k2 && k2 < len(bvl.Items) ==> itemIdx(bvl, block, validators, k1) != itemIdx(bvl, block, validators, k2))
+//@   ensures [genesis] err == nil && (blk_height(block) == 0 || validators == nil) ==> len(bvl.Items) == 0
+//@   loop 0: invariant -1 <= rangeindex && rangeindex < len(bvl.Items) && bvl.Items == old(bvl.Items) && bvl.Round == old(bvl.Round) && bvl.BlockPartSetIDAndAppData == old(bvl.BlockPartSetIDAndAppData) && arr(bvl.Items) == old(arr(bvl.Items))
+//@   loop 0: invariant msg != nil && msg.Height == blk_height(block) && msg.Round == bvl.Round && msg.Type == 1 && seq(msg.BlockID) == blk_id(block) && msg.BlockPartSetIDAndNTSVoteCount == bvl.BlockPartSetIDAndAppData
+//@   loop 0: invariant typeof(msg._byteser) == typeid(ptr_blockVoteByteser) && as(ptr_blockVoteByteser, msg._byteser) != nil && as(ptr_blockVoteByteser, msg._byteser).msg == msg
+//@   loop 0: invariant vset != nil && len(vset) == vl_len(validators) && off(vset) == 0 && validators != nil && blk_height(block) != 0
+//@   loop 0: invariant forall k int :: {bvl.Items[k]} 0 <= k && k <= rangeindex ==> itemOK(bvl, block, validators, k) && vset[itemIdx(bvl, block, validators, k)]
+//@   loop 0: invariant forall k1 int, k2 int :: {bvl.Items[k1], bvl.Items[k2]} 0 <= k1 && k1 < k2 && k2 <= rangeindex ==> itemIdx(bvl, block, validators, k1) != itemIdx(bvl, block, validators, k2)
